@@ -19,6 +19,9 @@
 import Golib.Logger.RateLemmas
 import Golib.Logger.ReadLemmas
 import Golib.Logger.Rotate
+import Golib.Logger.CalRealLemmas
+import Golib.Logger.CacheHMap
+import Golib.Logger.Concurrent
 
 namespace C17
 open Logger
@@ -298,6 +301,113 @@ theorem finding_D44 (cal : Cal) (h : cal.unitOf (asc "abcdefgh") = some 0) :
     candidate (asc "whatap") (asc "whatap-boot-abcdefgh.log") = none := by
   refine ⟨by decide, by rw [h]; decide, by decide⟩
 
+/-! ## real dates: the calendar parameter instantiated with C19's proved calendar -/
+
+/-- with the calendar of C19 (the 2000–2099 day table proved to be the Gregorian calendar), the
+    logger's file for day unit `u` carries the civil date of 2000-01-01 + `u` days, as 8 digits -/
+theorem real_file_name (logID oname : Bytes) (u : Nat) (h : u < 36525) :
+    fileName Cal.c19 logID oname true (u : Int) =
+      logID ++ [cDash] ++ oname ++ [cDash] ++ dateOfUnit u ++ asc ".log" ∧
+    (dateOfUnit u).length = 8 ∧ (∀ b ∈ dateOfUnit u, isDigit b = true) ∧
+    Cal.c19.unitOf (dateOfUnit u) = some (u : Int) := by
+  refine ⟨?_, (dateOfUnit_digits u).1, (dateOfUnit_digits u).2, c19_unitOf_date u h⟩
+  simp only [fileName, if_true, c19_ymd u h]
+
+/-- rotation with real dates: after a cycle at any instant `t` of 2000–2099 the open file is the
+    one that carries the civil date of `t` -/
+theorem real_rotation (t : Int) (st : St) (hi : st.Inv Cal.c19) (hr : st.conf.rotation = true)
+    (h0 : 0 ≤ unit t) (h1 : unit t < 36525) :
+    (process Cal.c19 t st).1.cur =
+      some (st.conf.logID ++ [cDash] ++ st.conf.oname ++ [cDash] ++ dateOfUnit (unit t).toNat ++ asc ".log") := by
+  obtain ⟨hc, _⟩ := process_rotates Cal.c19 t st hi
+  rw [hc, St.nameAt, hr]
+  have e : unit t = ((unit t).toNat : Int) := by omega
+  have hn := (real_file_name st.conf.logID st.conf.oname (unit t).toNat (by omega)).1
+  rw [← e] at hn
+  rw [hn]
+
+/-- retention with real dates: the logger's own file of day `u` is removed exactly when
+    retention is on and that day lies more than `keep` days before today -/
+theorem real_retention (rot : Bool) (logID oname : Bytes) (keep nowUnit : Int) (u : Nat) (h : u < 36525) :
+    deleted Cal.c19 rot logID keep nowUnit (fileName Cal.c19 logID oname true (u : Int)) = true ↔
+      rot = true ∧ keep > 0 ∧ nowUnit - (u : Int) > keep :=
+  deleted_own rot logID oname keep nowUnit u h
+
+/-! ## the id cache is C09's bounded insertion-ordered dictionary -/
+
+/-- `lastLog.Put` / `Get` are `HMap.S.put` (mode LAST, max 1000, empty key refused) / `AL.get`
+    with null value 0 -/
+theorem cache_is_dictionary (c : Cache) (k : Bytes) (v : Int) (hn : (HMap.AL.keys c).Nodup) :
+    cachePut c k v = (HMap.S.put slDesc ⟨c, cacheMax⟩ .last k v).1.ents ∧
+    (HMap.AL.keys (cachePut c k v)).Nodup ∧
+    cacheGet c k = (HMap.AL.get c k).getD 0 :=
+  ⟨cachePut_eq k v hn, cachePut_nodup k v hn, cacheGet_eq c k⟩
+
+/-- … and, one level further down, of C09's model of the hash table with its linked list -/
+theorem cache_is_linked_map {hash : Bytes → Nat} {thr : Nat → Nat} (m : HMap.LMap Bytes Int)
+    (h : HMap.LMap.Inv hash slDesc m) (hm : m.max = cacheMax) (k : Bytes) (v : Int) :
+    (HMap.LMap.abs hash (m.put hash thr slDesc .last k v).1).ents = cachePut (HMap.LMap.abs hash m).ents k v ∧
+    (m.get hash k).getD 0 = cacheGet (HMap.LMap.abs hash m).ents k ∧
+    HMap.LMap.Inv hash slDesc (m.put hash thr slDesc .last k v).1 :=
+  cache_refined_by_table m h hm k v
+
+/-- which id is forgotten when: a known id keeps its place (re-logging does not renew it), a new
+    id below the capacity is appended, a new id at the capacity evicts exactly the id that
+    entered first; the cache never holds more than 1000 ids -/
+theorem eviction_exact (c : Cache) (k : Bytes) (v : Int) (hn : (HMap.AL.keys c).Nodup) (hne : k ≠ []) :
+    (k ∈ HMap.AL.keys c → cachePut c k v = HMap.AL.set c k v) ∧
+    (k ∉ HMap.AL.keys c → c.length < cacheMax → cachePut c k v = c ++ [(k, v)]) ∧
+    (k ∉ HMap.AL.keys c → c.length = cacheMax → cachePut c k v = c.drop 1 ++ [(k, v)]) ∧
+    (c.length ≤ cacheMax → (cachePut c k v).length ≤ cacheMax) :=
+  ⟨fun hk => put_known v hn hk hne, fun hk hl => put_new_below v hk hne hl,
+   fun hk hl => put_new_full v hk hne hl, fun hl => cachePut_length_le k v hl⟩
+
+/-- suppression, exactly, after ANY history of a fresh logger — any length, any settings, eviction
+    included: a call is suppressed iff it passes the gate, carries a rate id `i`, the interval is
+    positive, and `t < T + interval·1000` where `T` is what the dictionary, run on the history's
+    `Put`s, holds for `i` (0 if nothing: never put, or forgotten) -/
+theorem rate_limit_any_history (cal : Cal) (st0 : St) (ops : List Op) (t : Int) (m : Meth) (id msg : Bytes)
+    (h0 : st0.cache = []) :
+    let st := run cal st0 ops
+    let dict := dictAfter [] (puts cal st0 ops)
+    ((logDecide t m id msg st).1 = .rate ↔
+      m.passes st.conf.level = true ∧ ∃ i, m.rateId id (if m.ln then msg ++ [cNl] else msg) = some i ∧
+        st.conf.interval > 0 ∧ t < (HMap.AL.get dict i).getD 0 + st.conf.interval * 1000) ∧
+    dict = ((puts cal st0 ops).foldl (fun (s : HMap.S Bytes Int) e => (HMap.S.put slDesc s .last e.1 e.2).1) ⟨[], cacheMax⟩).ents := by
+  exact ⟨suppressed_iff cal st0 ops t m id msg h0, (dictAfter_is_hmap (puts cal st0 ops) [] List.nodup_nil).1⟩
+
+/-! ## concurrent writers (atomic-write action model, OS atomicity as an explicit field) -/
+
+/-- for any number of writers and any schedule that closes the old handle only after the new
+    file is installed: no line is lost or duplicated, each writer's lines keep their order (old
+    file first), and — by the field `atomic` of `AppendFS` — each file's bytes are the bytes it
+    had followed by the whole lines that reached it -/
+theorem lines_in_order_concurrent (fs : Conc.AppendFS) (oldF newF : fs.F) (oldL : List Conc.Line)
+    (as : List Conc.Act) (hs : Conc.Safe false as) :
+    let s := Conc.crun fs (Conc.steady fs oldF newF oldL) as
+    s.oldL ++ s.newL = oldL ++ Conc.writesOf as ∧
+    (∀ w, (s.oldL ++ s.newL).filter (fun l => l.writer == w) =
+        oldL.filter (fun l => l.writer == w) ++ (Conc.writesOf as).filter (fun l => l.writer == w)) ∧
+    ∃ lo ln, s.oldL = oldL ++ lo ∧ s.newL = ln ∧
+      fs.content s.oldF = fs.content oldF ++ Conc.texts lo ∧ fs.content s.newF = fs.content newF ++ Conc.texts ln := by
+  have h1 := Conc.all_lines_kept fs (Conc.steady fs oldF newF oldL) as hs (Or.inr rfl) (fun _ => rfl)
+  refine ⟨by simpa [Conc.steady] using h1, ?_, ?_⟩
+  · intro w
+    have := Conc.writer_order_kept fs (Conc.steady fs oldF newF oldL) as hs (Or.inr rfl) (fun _ => rfl) w
+    simpa [Conc.steady] using this
+  · obtain ⟨lo, ln, a, b, c, d⟩ := Conc.files_hold_whole_lines fs (Conc.steady fs oldF newF oldL) as
+    exact ⟨lo, ln, a, by simpa [Conc.steady] using b, c, d⟩
+
+/-- the repaired rotation, at any two positions of any schedule, obeys that discipline; the
+    order before the repair does not, and loses the line written in between -/
+theorem rotation_safe_concurrent (fs : Conc.AppendFS) (a b c : List Conc.Act)
+    (ha : Conc.NoRot a) (hb : Conc.NoRot b) (hc : Conc.NoRot c) (oldF newF : fs.F) (l : Conc.Line) :
+    Conc.Safe false (Conc.rotated a b c) ∧
+    ¬ Conc.Safe false [Conc.Act.closeOld, .write l, .install] ∧
+    (let s := Conc.crun fs (Conc.steady fs oldF newF []) [.closeOld, .write l, .install]
+     s.oldL ++ s.newL = []) :=
+  ⟨Conc.rotated_safe a b c ha hb hc, (Conc.unsafe_order_loses fs oldF newF l).1, (Conc.unsafe_order_loses fs oldF newF l).2⟩
+
 /-! ## non-vacuity -/
 
 section Examples
@@ -328,6 +438,17 @@ example : readEntry (.file (asc "0123456789")) (-1) 4 = .data ⟨6, -1, asc "678
 /-- the window is `length` bytes from `start`, even past `endpos` when `endpos < length` -/
 example : readEntry (.file (asc "0123456789")) 2 4 = .data ⟨0, 8, asc "0123"⟩ := by decide
 example : readEntry (.file (asc "0123456789")) 11 4 = .nilQuiet := by decide
+
+/-- the C19 calendar on a concrete day: unit 8835 is 2024-03-10 -/
+example : dateOfUnit 8835 = asc "20240310" := by decide +kernel
+
+/-- an instance of the OS assumption (files as byte lists) and a three-writer schedule with a rotation in the middle -/
+def listFS : Conc.AppendFS := ⟨Bytes, id, fun f bs => f ++ bs, fun _ _ => rfl⟩
+example : Conc.Safe false (Conc.rotated [.write ⟨0, asc "a\n"⟩, .write ⟨1, asc "b\n"⟩] [.write ⟨2, asc "c\n"⟩] [.write ⟨0, asc "d\n"⟩]) := by
+  simp [Conc.rotated, Conc.Safe]
+
+/-- eviction: at capacity 1000 the id that entered first is the one forgotten (small instance of the shape) -/
+example : cachePut [(asc "a", 1), (asc "b", 2)] (asc "b") 9 = [(asc "a", 1), (asc "b", 9)] := by decide
 
 end Examples
 
